@@ -83,11 +83,19 @@ class UserProblem(Problem):
             return M.astype(np.int64)
         return M
 
+    def _pat(self, dense, pattern):
+        # spec["nzpat"]: store exactly the current non-zeros (coo_matrix(dense) style) instead of the structural pattern
+        return (dense != 0) if self.spec.get("nzpat") else pattern
+
     def cons_jac(self, x):
+        if self.spec.get("nzpat"):
+            return self._ret("jac", x.tobytes(), lambda: to_sparse(self.F.jac(x), self.F.jac(x) != 0, self.fmt))
         return self._ret("jac", x.tobytes(), lambda: self._int(to_sparse(self.F.jac(x), self.jpat, self.fmt), self.jac_const),
                          const_ok=self.jac_const)
 
     def lag_hess(self, x, y):
+        if self.spec.get("nzpat"):
+            return self._ret("hess", x.tobytes() + y.tobytes(), lambda: to_sparse(self.F.hessL(x, y), self.F.hessL(x, y) != 0, self.fmt))
         return self._ret("hess", x.tobytes() + y.tobytes(),
                          lambda: self._int(to_sparse(self.F.hessL(x, y), self.hpat, self.fmt), self.hess_const),
                          const_ok=self.hess_const)
@@ -158,8 +166,9 @@ class FaultProblem(Problem):
     """Transient fault: the k-th call (1-based, counted per kind) of `kind` returns a
     non-finite value.  Region fault: every call with x inside the region is non-finite."""
 
-    def __init__(self, inner, kind=None, k=None, region=None, faults=None):
+    def __init__(self, inner, kind=None, k=None, region=None, faults=None, region_kinds=None):
         self.inner = inner
+        self.region_kinds = region_kinds  # None = the region affects every kind
         self.faults = set(faults or [])
         if kind is not None:
             self.faults.add((kind, k))
@@ -185,7 +194,7 @@ class FaultProblem(Problem):
     def _bad(self, kind, x):
         self.counts[kind] += 1
         k = self.counts[kind]
-        if (kind, k) in self.faults or self.in_region(x):
+        if (kind, k) in self.faults or ((self.region_kinds is None or kind in self.region_kinds) and self.in_region(x)):
             self.fired.append((kind, k, np.array(x, dtype=float)))
             return True
         return False
@@ -227,3 +236,39 @@ class FaultProblem(Problem):
             else:
                 v = sps.coo_matrix(([np.nan], ([0], [0])), shape=v.shape)
         return v
+
+
+class TickingProblem(Problem):
+    """Every callback evaluation lets `dt` seconds pass on the given virtual clock (expensive user functions)."""
+
+    def __init__(self, inner, clock, dt=1.0):
+        self.inner, self.clock, self.dt = inner, clock, dt
+        self.evals = 0
+        if inner.num_cons > 0:
+            super().__init__(inner.var_lb, inner.var_ub, cons_lb=inner.cons_lb, cons_ub=inner.cons_ub)
+        else:
+            super().__init__(inner.var_lb, inner.var_ub)
+
+    def _tick(self):
+        self.evals += 1
+        self.clock.offset += self.dt
+
+    def obj(self, x):
+        self._tick()
+        return self.inner.obj(x)
+
+    def obj_grad(self, x):
+        self._tick()
+        return self.inner.obj_grad(x)
+
+    def cons(self, x):
+        self._tick()
+        return self.inner.cons(x)
+
+    def cons_jac(self, x):
+        self._tick()
+        return self.inner.cons_jac(x)
+
+    def lag_hess(self, x, y):
+        self._tick()
+        return self.inner.lag_hess(x, y)
